@@ -85,6 +85,14 @@ def do_check(ctx, mod, no_build=False):
             obligations.append({'name': t, 'kind': 'theorem', 'ok': good, 'axioms': axioms.get(t)})
         if not ok:
             ctx.broken += ['audit: ' + p for p in problems]
+        if ctx.tier == 'thorough':
+            # independent re-check of the compiled proofs
+            import subprocess
+            with core._Lock():
+                lc = subprocess.run(['lake', 'env', 'leanchecker', mod.MODULE], cwd=core.LEAN, capture_output=True, text=True, timeout=3000)
+            obligations.append({'name': 'leanchecker %s' % mod.MODULE, 'kind': 'audit', 'ok': lc.returncode == 0})
+            if lc.returncode != 0:
+                ctx.broken.append('leanchecker rejected %s: %s' % (mod.MODULE, (lc.stdout + lc.stderr)[-200:]))
         hits = core.forbidden_tokens()
         obligations.append({'name': 'forbidden-token grep (sorry/admit/axiom/native_decide/...)', 'kind': 'audit', 'ok': not hits})
         if hits:
